@@ -120,6 +120,22 @@ fn wlint_json(inner: &CLint, problem: &str, md: bool) -> String {
 struct Keys {
     names: Vec<String>,
     curated: String,
+    /// the rule descriptions of a new linter as the driver prints them (key id:code of the text, in key order)
+    descriptions: String,
+}
+/// get_lint_descriptions_as_json as `id:code ...` (a key outside the universe shows as `?name`)
+fn descr_line(keys: &Keys, j: &str) -> String {
+    let Ok(m) = serde_json::from_str::<BTreeMap<String, String>>(j) else { return "!".into() };
+    m.iter()
+        .map(|(k, d)| match keys.names.binary_search(k) {
+            Ok(i) => format!("{i}:{}", code62(d) % 1_000_000_007),
+            Err(_) => format!("?{k}"),
+        })
+        .collect::<Vec<_>>()
+        .join(" ")
+}
+fn bytes_dec(b: &[u8]) -> String {
+    b.iter().map(|x| x.to_string()).collect::<Vec<_>>().join(" ")
 }
 impl Keys {
     fn new() -> Self {
@@ -129,8 +145,9 @@ impl Keys {
         for u in UNKNOWN_KEYS {
             names.insert(u.to_string());
         }
-        let mut k = Keys { names: names.into_iter().collect(), curated: String::new() };
+        let mut k = Keys { names: names.into_iter().collect(), curated: String::new(), descriptions: String::new() };
         k.curated = k.cfgstring(&cur);
+        k.descriptions = descr_line(&k, &WL::new(WD::American).get_lint_descriptions_as_json());
         k
     }
     /// t/f/n per key of the universe, '-' when the JSON map does not mention it; a key outside the
@@ -335,8 +352,13 @@ enum Op {
     LikelyEnglish { text: String },
     IsolateEnglish { text: String },
     DefaultConfig,
-    /// import_stats_file of this linter's own generate_stats_file (bad: with a broken last line)
-    ImportStats { bad: bool },
+    /// import_stats_file of this linter's own generate_stats_file (bad: with a broken last line); variant 1: CRLF line
+    /// ends, 2: no newline after the last record, 3: the file of ANOTHER linter that applied a suggestion to "teh cat"
+    ImportStats { bad: bool, variant: usize },
+    /// summarize_stats(start, end) with the bounds given relative to the oldest record's clock (None = no bound)
+    Summarize { start_off: Option<i64>, end_off: Option<i64> },
+    /// get_lint_descriptions_as_json
+    Descriptions,
 }
 fn op_json(o: &Op) -> Value {
     match o {
@@ -359,7 +381,9 @@ fn op_json(o: &Op) -> Value {
         Op::LikelyEnglish { text } => json!({"op": "likely_english", "text": text}),
         Op::IsolateEnglish { text } => json!({"op": "isolate_english", "text": text}),
         Op::DefaultConfig => json!({"op": "default_config"}),
-        Op::ImportStats { bad } => json!({"op": "import_stats", "bad": bad}),
+        Op::ImportStats { bad, variant } => json!({"op": "import_stats", "bad": bad, "variant": variant}),
+        Op::Summarize { start_off, end_off } => json!({"op": "summarize", "start_off": start_off, "end_off": end_off}),
+        Op::Descriptions => json!({"op": "descriptions"}),
     }
 }
 fn op_of(v: &Value) -> Option<Op> {
@@ -386,7 +410,9 @@ fn op_of(v: &Value) -> Option<Op> {
         "likely_english" => Op::LikelyEnglish { text: s("text") },
         "isolate_english" => Op::IsolateEnglish { text: s("text") },
         "default_config" => Op::DefaultConfig,
-        "import_stats" => Op::ImportStats { bad: v["bad"].as_bool().unwrap_or(false) },
+        "import_stats" => Op::ImportStats { bad: v["bad"].as_bool().unwrap_or(false), variant: v["variant"].as_u64().unwrap_or(0) as usize },
+        "summarize" => Op::Summarize { start_off: v["start_off"].as_i64(), end_off: v["end_off"].as_i64() },
+        "descriptions" => Op::Descriptions,
         _ => return None,
     })
 }
@@ -624,9 +650,23 @@ impl<'a> Hist<'a> {
             self.rep.count("skipped:document_or_rule_panics(C01's business)");
             return;
         }
+        let before = self.api.generate_stats_file().lines().count();
         let api = &mut self.api;
         let r = guarded(|| api.apply_suggestion(text.to_string(), &wl, &ws));
-        let case = format!("A {} | {} | {}", cps(&chars(text)), enc_wlint(&inner, &pt, md), enc_sug(sug));
+        // the record the call pushed (clock, uuid, fat tokens): what the model's env / fat_context answer with
+        let after = self.api.generate_stats_file();
+        let pushed = if after.lines().count() == before + 1 { after.lines().last().map(|l| bytes_dec(l.as_bytes())).unwrap_or_else(|| "-".into()) } else { "-".into() };
+        let case = format!("A {} | {} | {} | {}", cps(&chars(text)), enc_wlint(&inner, &pt, md), enc_sug(sug), pushed);
+        // the record just pushed carries the kind of the applied lint (Model/C16Stats.v record_now)
+        if after.lines().count() == before + 1 {
+            let v: Value = after.lines().last().and_then(|l| serde_json::from_str(l).ok()).unwrap_or(Value::Null);
+            let want = KIND_NAMES.get(kind_index(&inner.lint_kind)).copied().unwrap_or("?");
+            if v["kind"]["Lint"]["kind"].as_str() != Some(want) {
+                self.fail("stats_record_kind", format!("apply_suggestion of a {want} lint recorded {}", v["kind"]));
+            }
+        } else if r.is_ok() {
+            self.fail("stats_record_count", format!("apply_suggestion pushed {} records", after.lines().count() as i64 - before as i64));
+        }
         self.stats_expected += 1;
         self.rep.eval();
         let src: Vec<char> = text.chars().collect();
@@ -674,11 +714,9 @@ impl<'a> Hist<'a> {
             let name = v["kind"]["Lint"]["kind"].as_str().unwrap_or("?").to_string();
             kinds.push(KIND_NAMES.iter().position(|n| *n == name).unwrap_or(99));
         }
-        let mut line = kinds.len().to_string();
-        for k in &kinds {
-            line.push_str(&format!(" {k}"));
-        }
-        self.rep.case("S", &line);
+        // the whole file, byte for byte, against the model's Stats::write over C19's concrete Record
+        self.rep.case("S", format!("F {}", file.replace('\n', "\t")).trim());
+        self.rep.count(&format!("stats_file:records:{}", bucket(kinds.len())));
         if oracle && kinds.len() != self.stats_expected {
             self.fail("stats_record_count", format!("{} statistics records after {} apply_suggestion calls", kinds.len(), self.stats_expected));
         }
@@ -1005,38 +1043,118 @@ impl<'a> Hist<'a> {
                     }
                 }
             }
-            Op::ImportStats { bad } => {
-                let file = self.api.generate_stats_file();
+            Op::ImportStats { bad, variant } => {
+                let own = self.api.generate_stats_file();
+                // the file handed over: this linter's own, or (variant 3) that of another linter
+                let file = if *variant == 3 {
+                    let d = wd_of(self.dialect);
+                    guarded(|| {
+                        let mut other = WL::new(d);
+                        let t = "I saw teh cat, $5 and 3.50 dollars.".to_string();
+                        let ls = other.lint(t.clone(), Language::Plain);
+                        if let Some(l) = ls.first() {
+                            if let Some(sg) = l.suggestions().first() {
+                                let _ = other.apply_suggestion(t, l, sg);
+                            }
+                        }
+                        other.generate_stats_file()
+                    })
+                    .unwrap_or_default()
+                } else {
+                    own.clone()
+                };
+                // variant 4: this linter's own records with the clock of record i moved i seconds on (distinct clocks,
+                // so that the windows of summarize_stats cut through the records)
+                let file = if *variant == 4 {
+                    file.lines()
+                        .enumerate()
+                        .map(|(i, l)| {
+                            let Some(p) = l.rfind(",\"when\":") else { return format!("{l}\n") };
+                            let q = p + 8;
+                            let e = l[q..].find(',').map(|x| q + x).unwrap_or(l.len());
+                            match l[q..e].parse::<i64>() {
+                                Ok(w) => format!("{}{}{}\n", &l[..q], w + i as i64, &l[e..]),
+                                Err(_) => format!("{l}\n"),
+                            }
+                        })
+                        .collect::<String>()
+                } else {
+                    file
+                };
                 let n = file.lines().count();
-                let mut kinds = vec![];
-                for line in file.lines() {
-                    let v: Value = serde_json::from_str(line).unwrap_or(Value::Null);
-                    let name = v["kind"]["Lint"]["kind"].as_str().unwrap_or("?").to_string();
-                    kinds.push(KIND_NAMES.iter().position(|x| *x == name).unwrap_or(99).to_string());
-                }
-                let mut given = file.clone();
+                let mut given = match *variant {
+                    1 => file.replace('\n', "\r\n"),
+                    2 => file.trim_end_matches('\n').to_string(),
+                    _ => file.clone(),
+                };
                 if *bad {
                     given.push_str("{\"kind\":{\"Lint\":\n");
                 }
-                let r = self.api.import_stats_file(given);
-                let case = if *bad { "IS !".to_string() } else { format!("IS {}", kinds.join(" ")).trim().to_string() };
-                self.rep.case(&case, if r.is_ok() { "ok" } else { "err" });
-                self.rep.count(if *bad { "api:import_stats:bad" } else { "api:import_stats" });
-                self.rep.monitor("stats_serde_contract:records_checked", n as u64);
+                let r = self.api.import_stats_file(given.clone());
+                self.rep.case(format!("IS {}", bytes_dec(given.as_bytes())).trim(), if r.is_ok() { "ok" } else { "err" });
+                self.rep.count(&format!("api:import_stats:{}{}", ["own", "crlf", "no_final_newline", "other_linter", "own_clocks_spread"][*variant % 5], if *bad { ":broken" } else { "" }));
+                self.rep.monitor("stats_roundtrip:records_checked", n as u64);
                 if r.is_ok() == *bad {
-                    self.fail("stats_file_roundtrip", format!("import_stats_file {} a file that is {}", if r.is_ok() { "accepted" } else { "refused" }, if *bad { "broken in its last line" } else { "this linter's own generate_stats_file" }));
+                    self.fail("stats_file_roundtrip", format!("import_stats_file {} a file that is {}", if r.is_ok() { "accepted" } else { "refused" }, if *bad { "broken in its last line" } else { "a linter's generate_stats_file" }));
                 }
                 if r.is_ok() {
                     self.stats_expected += n;
-                    // monitor of the serde contract (premise of C16_stats_file_roundtrip): the imported records are
-                    // written again exactly as they were read
+                    // the property on the real code (C16_stats_file_roundtrip): the importing linter writes its own
+                    // file followed by the imported one, byte for byte.  This is also the monitor of what the theorem
+                    // still assumes (float_rt; records are Rust values with finite Numbers).
                     let again = self.api.generate_stats_file();
-                    if again != format!("{file}{file}") {
-                        self.rep.monitor("stats_serde_contract:VIOLATED", 1);
-                        self.fail("stats_file_roundtrip", format!("after importing its own {n}-record statistics file the linter does not write the records twice: {} bytes vs 2 x {}", again.len(), file.len()));
+                    if again != format!("{own}{file}") {
+                        self.rep.monitor("stats_roundtrip:VIOLATED", 1);
+                        self.fail("stats_file_roundtrip", format!("after importing a {n}-record statistics file the linter does not write its own records followed by the imported ones: {} bytes vs {} + {}", again.len(), own.len(), file.len()));
                     }
                 }
                 self.do_stats(false);
+            }
+            Op::Summarize { start_off, end_off } => {
+                // summarize_stats returns a JsValue (aborts natively): the mirror runs its body (pinned by
+                // C16_api_bodies) on the records of generate_stats_file with harper_stats itself
+                let file = self.api.generate_stats_file();
+                let Ok(mut stats) = harper_stats::Stats::read(&mut std::io::Cursor::new(file.as_bytes())) else {
+                    self.fail("stats_unreadable", "Stats::read refuses generate_stats_file".into());
+                    return;
+                };
+                let base = stats.records.iter().map(|r| r.when).min().unwrap_or(0);
+                let (a, b) = (start_off.map(|o| base + o), end_off.map(|o| base + o));
+                if let Some(a) = a {
+                    stats.records.retain(|i| i.when > a);
+                }
+                if let Some(b) = b {
+                    stats.records.retain(|i| i.when < b);
+                }
+                let kept = stats.records.len();
+                let sm = stats.summarize();
+                let mut counts: Vec<(usize, u32)> = sm.lint_counts.iter().map(|(k, c)| (kind_index(k), *c)).collect();
+                counts.sort();
+                let mut missp: Vec<(Vec<u32>, u32)> = sm.misspelled.iter().map(|(w, c)| (w.chars().map(|x| x as u32).collect(), *c)).collect();
+                missp.sort();
+                let cfg_n = serde_json::to_value(&sm.final_config).ok().and_then(|v| v.as_object().map(|o| o.len())).unwrap_or(0);
+                let line = format!(
+                    "{} | {} | {} | {}",
+                    sm.total_applied,
+                    counts.iter().map(|(k, c)| format!("{k}:{c}")).collect::<Vec<_>>().join(" "),
+                    missp.iter().map(|(w, c)| format!("{} :{c}", w.iter().map(|x| x.to_string()).collect::<Vec<_>>().join(" "))).collect::<Vec<_>>().join(" ; "),
+                    cfg_n
+                );
+                let o = |x: Option<i64>| x.map(|v| v.to_string()).unwrap_or_else(|| "-".into());
+                self.rep.case(&format!("SUM {} {}", o(a), o(b)), &line);
+                self.rep.count(&format!("api:summarize_stats(mirror):kept_{}_of_{}", bucket(kept), bucket(file.lines().count())));
+                if a.is_none() && b.is_none() && sm.total_applied as usize != self.stats_expected {
+                    self.fail("stats_record_count", format!("the unbounded summary counts {} applied lints, the linter holds {} records", sm.total_applied, self.stats_expected));
+                }
+            }
+            Op::Descriptions => {
+                let j = self.api.get_lint_descriptions_as_json();
+                let line = descr_line(self.keys, &j);
+                self.rep.case("LD", &line);
+                self.rep.count("api:lint_descriptions");
+                if line != self.keys.descriptions {
+                    self.fail("descriptions_changed", "get_lint_descriptions_as_json differs from the descriptions of a new linter".into());
+                }
             }
             Op::Dialect => {
                 let d = wd_index(self.api.get_dialect());
@@ -1626,6 +1744,18 @@ fn gen_scenario(r: &mut Rng) -> (usize, Vec<Op>) {
                 ops.push(Op::Apply { lint: r.below(12), sug: r.below(4), text: None });
             }
             ops.push(Op::Stats);
+            // the statistics through every export that reads or writes them
+            ops.push(Op::Summarize { start_off: None, end_off: None });
+            ops.push(Op::Summarize { start_off: Some(r.below(3) as i64 - 1), end_off: if r.chance(1, 2) { None } else { Some(r.below(4) as i64) } });
+            ops.push(Op::ImportStats { bad: r.chance(1, 6), variant: r.below(5) });
+            if r.chance(1, 2) {
+                ops.push(Op::Apply { lint: r.below(12), sug: r.below(4), text: None });
+                ops.push(Op::ImportStats { bad: false, variant: r.below(5) });
+            }
+            ops.push(Op::ImportStats { bad: false, variant: 4 });
+            ops.push(Op::Summarize { start_off: Some(r.below(3) as i64), end_off: Some(2 + r.below(4) as i64) });
+            ops.push(Op::Summarize { start_off: None, end_off: Some(r.below(3) as i64) });
+            ops.push(Op::Descriptions);
             (dialect, ops)
         }
     }
@@ -1701,12 +1831,15 @@ fn gen_history(r: &mut Rng, keys: &Keys) -> (usize, Vec<Op>) {
         } else if r.chance(1, 10) {
             Op::Dialect
         } else {
-            match r.below(6) {
+            match r.below(9) {
+                6 => Op::Summarize { start_off: if r.chance(1, 3) { None } else { Some(r.below(4) as i64 - 2) }, end_off: if r.chance(1, 3) { None } else { Some(r.below(5) as i64 - 1) } },
+                7 => Op::Descriptions,
+                8 => Op::ImportStats { bad: r.chance(1, 5), variant: 1 + r.below(4) },
                 0 => Op::TitleCase { text: if r.chance(1, 3) { gen::malformed(r, 20) } else { gen::sentence(r) } },
                 1 => Op::LikelyEnglish { text: if r.chance(1, 3) { format!("{} {} {}", r.s(USER_WORDS), r.s(USER_WORDS), r.s(USER_WORDS)) } else { gen_text(r) } },
                 2 => Op::IsolateEnglish { text: format!("{} Der schnelle braune Fuchs springt. {} {}", gen::sentence(r), r.s(USER_WORDS), gen::clean_sentence(r)) },
                 3 => Op::DefaultConfig,
-                _ => Op::ImportStats { bad: r.chance(1, 4) },
+                _ => Op::ImportStats { bad: r.chance(1, 4), variant: 0 },
             }
         };
         ops.push(op);
@@ -1741,17 +1874,36 @@ fn main() {
     let keys = Keys::new();
     let mut intern = Intern::default();
     rep.case(&format!("K {}", keys.curated), "ok");
+    {
+        // the rule descriptions (a constant of the rule set): handed to the model once, like the curated configuration
+        let items: Vec<&str> = keys.descriptions.split(' ').filter(|x| !x.is_empty()).collect();
+        let mut l = format!("KD {}", items.len());
+        for it in &items {
+            let (a, b) = it.split_once(':').unwrap_or(("0", "0"));
+            l.push_str(&format!(" {a} {b}"));
+        }
+        rep.case(&l, "ok");
+        // every rule of the curated configuration has a description and vice versa
+        let cfg: BTreeMap<String, Option<bool>> = serde_json::from_str(&harper_wasm::get_default_lint_config_as_json()).unwrap_or_default();
+        let ds: BTreeMap<String, String> = serde_json::from_str(&WL::new(WD::American).get_lint_descriptions_as_json()).unwrap_or_default();
+        if cfg.keys().collect::<Vec<_>>() != ds.keys().collect::<Vec<_>>() {
+            rep.fail("descriptions_keys", "the rules with a description are not the rules of the default configuration".into(), json!({"kind": "history", "dialect": 0, "ops": [{"op": "descriptions"}], "origin": "setup"}));
+        }
+    }
     rep.extra.insert("config_keys".into(), json!(keys.names.len()));
-    // the exports of harper-wasm that are NOT in the model, with the reason (the names are pinned against the
-    // export list generated from harper-wasm/src/lib.rs by theorem C16_api_coverage; everything else is modelled
-    // or a projection of a modelled value, see coq/Proofs/C16Surface.v api_classification)
-    let js = "takes or returns a JsValue: aborts outside a JavaScript host, cannot be run natively; its _json twin is modelled";
+    // the exports of harper-wasm against the model (the names are pinned against the export list generated from
+    // harper-wasm/src/lib.rs by theorem C16_api_coverage, see coq/Proofs/C16Surface.v api_classification)
     rep.extra.insert(
         "wasm_exports_outside_the_model".into(),
         json!({
-            "setup": "installs the panic hook and the tracing subscriber of the JavaScript console; no linter state",
-            "Linter::get_lint_descriptions_as_json": "a constant of the rule set (rule name -> description); reads no linter state, no clause of C16 mentions it",
-            "Linter::summarize_stats": js,
+            "setup": "installs the panic hook and the tracing subscriber of the JavaScript console; no linter state, no result",
+        }),
+    );
+    let js = "takes or returns a JsValue: aborts outside a JavaScript host, cannot be run natively. Modelled in Model/C16Stats.v as the value its _json twin serialises / the steps of its twin (C16_api_twins); its body is pinned by C16_api_bodies";
+    rep.extra.insert(
+        "wasm_exports_modelled_but_not_executed".into(),
+        json!({
+            "Linter::summarize_stats": "returns a JsValue. Modelled (C16_summarize_stats: the two retain passes + Stats::summarize over C19's Record); tied by running its body, pinned by C16_api_bodies, on the records of generate_stats_file with harper_stats (SUM lines)",
             "Linter::get_lint_descriptions_as_object": js,
             "Linter::get_lint_config_as_object": js,
             "Linter::set_lint_config_from_object": js,
